@@ -503,3 +503,86 @@ pub fn robotics_eval(s: &str, tag: u8) -> Option<u64> {
         .ok()
         .map(f64::to_bits)
 }
+
+// ---- C15: the thread-local state (anchor table, fallback location) driven by a script ----
+
+/// One action of a scripted "call". `Scope` is what every entry point wraps a document in.
+#[derive(Clone, Debug)]
+pub enum TlAct {
+    /// store_rc(id, value)
+    Store(usize, u32),
+    /// get_rc(id): observed
+    Lookup(usize),
+    /// with_anchor_context(Rc, Some(id), || body): observes current_rc_anchor() and re-entrancy inside
+    Anchor(usize, Vec<TlAct>),
+    /// MissingFieldLocationGuard::new(line) around body
+    Fallback(u32, Vec<TlAct>),
+    /// what a serde-generated error would get as location: observed (line or 0)
+    ReadFallback,
+    /// a nested entry-point call
+    Scope(Vec<TlAct>),
+    /// an error aborts the rest of the enclosing call
+    Abort,
+    /// the visitor panics: unwinds through the guards up to the enclosing `Scope`
+    Panic,
+}
+
+/// Observations in order: lookups (`value + 1`, 0 = absent), fallback lines, anchor ids (+1000).
+pub fn tl_run(script: &[TlAct], obs: &mut Vec<u64>) -> bool {
+    for a in script {
+        match a {
+            TlAct::Store(id, v) => crate::anchor_store::store_rc(*id, std::rc::Rc::new(*v)),
+            TlAct::Lookup(id) => {
+                let r = crate::anchor_store::get_rc::<u32>(*id).ok().flatten();
+                obs.push(r.map(|v| *v as u64 + 1).unwrap_or(0));
+            }
+            TlAct::Anchor(id, body) => {
+                let ok = crate::anchor_store::with_anchor_context(
+                    crate::anchor_store::AnchorKind::Rc,
+                    Some(*id),
+                    || {
+                        obs.push(1000 + crate::anchor_store::current_rc_anchor().map(|x| x as u64 + 1).unwrap_or(0));
+                        obs.push(2000 + crate::anchor_store::rc_anchor_reentrant(*id) as u64);
+                        tl_run(body, obs)
+                    },
+                );
+                if !ok {
+                    return false;
+                }
+            }
+            TlAct::Fallback(line, body) => {
+                let _g = crate::de_error::MissingFieldLocationGuard::new(crate::Location::new(*line as usize, 1));
+                if !tl_run(body, obs) {
+                    return false;
+                }
+            }
+            TlAct::ReadFallback => {
+                let e = <crate::Error as serde::de::Error>::missing_field("f");
+                obs.push(e.location().map(|l| l.line()).unwrap_or(0));
+            }
+            TlAct::Scope(body) => {
+                // the nested call's own failure (or panic, caught by the caller) does not abort the caller
+                let mut inner = Vec::new();
+                let _ = std::panic::catch_unwind(std::panic::AssertUnwindSafe(|| {
+                    crate::anchor_store::with_document_scope(|| tl_run(body, &mut inner))
+                }));
+                obs.append(&mut inner);
+            }
+            TlAct::Abort => return false,
+            TlAct::Panic => std::panic::panic_any("scripted visitor panic"),
+        }
+    }
+    true
+}
+
+/// What is left in the thread-local state: (a lookup of ids 0..4, current anchor, fallback line).
+pub fn tl_probe() -> Vec<u64> {
+    let mut v = Vec::new();
+    for id in 0..4usize {
+        v.push(crate::anchor_store::get_rc::<u32>(id).ok().flatten().map(|x| *x as u64 + 1).unwrap_or(0));
+    }
+    v.push(crate::anchor_store::current_rc_anchor().map(|x| x as u64 + 1).unwrap_or(0));
+    let e = <crate::Error as serde::de::Error>::missing_field("f");
+    v.push(e.location().map(|l| l.line()).unwrap_or(0));
+    v
+}
